@@ -61,28 +61,55 @@ constexpr T down(T x)
     return x == p ? x - p * lim<T>::epsilon() / T(2) : x - p * lim<T>::epsilon();
 }
 
+/// total order used to sort and de-duplicate the tables: -NaN < -inf < ... < -0 < +0 < ... < +inf < +NaN
+template <typename T>
+constexpr bool table_less(T a, T b)
+{
+    int const ka = a != a ? (__builtin_signbit(a) ? 0 : 2) : 1;
+    int const kb = b != b ? (__builtin_signbit(b) ? 0 : 2) : 1;
+    if (ka != kb) { return ka < kb; }
+    if (ka != 1) { return false; }
+    if (a < b) { return true; }
+    if (b < a) { return false; }
+    return __builtin_signbit(a) && !__builtin_signbit(b);
+}
+
 template <typename T, std::size_t Cap>
 struct Bag {
     std::array<T, Cap> v{};
     std::size_t n{0};
-    constexpr bool has(T x) const
-    {
-        bool const xn = x != x;
-        bool const xs = __builtin_signbit(x) != 0;
-        for (std::size_t i = 0; i < n; ++i) {
-            T const w = v[i];
-            if ((xn ? (w != w) : (w == x)) && ((__builtin_signbit(w) != 0) == xs)) { return true; }
-        }
-        return false;
-    }
-    constexpr void add(T x)
-    {
-        if (!has(x)) { v[n++] = x; }
-    }
+    constexpr void add(T x) { v[n++] = x; }
     constexpr void pm(T x)
     {
         add(x);
         add(-x);
+    }
+    /// sorts (heap sort, no recursion) and removes duplicates: O(n log n) constant-evaluation steps
+    constexpr void finish()
+    {
+        auto sift = [&](std::size_t root, std::size_t end) {
+            while (2 * root + 1 < end) {
+                std::size_t child = 2 * root + 1;
+                if (child + 1 < end && table_less(v[child], v[child + 1])) { ++child; }
+                if (!table_less(v[root], v[child])) { return; }
+                T const t = v[root];
+                v[root]   = v[child];
+                v[child]  = t;
+                root      = child;
+            }
+        };
+        for (std::size_t i = n / 2; i-- > 0;) { sift(i, n); }
+        for (std::size_t end = n; end-- > 1;) {
+            T const t = v[0];
+            v[0]      = v[end];
+            v[end]    = t;
+            sift(0, end);
+        }
+        std::size_t m = 0;
+        for (std::size_t i = 0; i < n; ++i) {
+            if (m == 0 || table_less(v[m - 1], v[i])) { v[m++] = v[i]; }
+        }
+        n = m;
     }
 };
 
@@ -102,7 +129,7 @@ template <typename T>
 constexpr auto make_B_raw()
 {
     constexpr int digits = lim<T>::digits;
-    Bag<T, 8192> b;
+    Bag<T, 16384> b;
     add_specials<T>(b);
     b.pm(lim<T>::denorm_min() * T(2));
     b.pm(lim<T>::denorm_min() * T(3));
@@ -179,6 +206,7 @@ constexpr auto make_B_raw()
             }
         }
     }
+    b.finish();
     return b;
 }
 
@@ -240,6 +268,7 @@ constexpr auto make_B2_raw()
         b.pm(T(1e-5L));
         b.pm(lim<T>::epsilon() / T(2));
     }
+    b.finish();
     return b;
 }
 template <typename T>
@@ -278,6 +307,7 @@ constexpr auto make_B3_raw()
         b.add(lim<T>::epsilon());
         b.add(T(2));
     }
+    b.finish();
     return b;
 }
 template <typename T>
